@@ -184,6 +184,18 @@ func (te *tableEngine) createPlayerGameAction(playerID string, playerIdx int, ac
 }
 
 func (te *tableEngine) batchAddPlayers(players []JoinPlayer) error {
+	// validate the whole batch before touching the seat manager or the table
+	batchPlayerIDs := make(map[string]bool)
+	for _, p := range players {
+		if batchPlayerIDs[p.PlayerID] || te.table.FindPlayerIdx(p.PlayerID) != UnsetValue {
+			return seat_manager.ErrDuplicatePlayers
+		}
+		batchPlayerIDs[p.PlayerID] = true
+	}
+	if len(te.table.State.PlayerStates)+len(players) > te.table.Meta.TableMaxSeatCount {
+		return seat_manager.ErrNotEnoughSeats
+	}
+
 	playerSeatIDs := make(map[string]int)
 	playerRandomSeatIDs := make([]string, 0)
 
